@@ -894,6 +894,51 @@ R.contract(
     replayable=False,
 )
 
+
+# ------------------------------------------------------------------------------------------------- _prepare_form_data: text, numbers and bytes go into a multipart form as they are
+TRQ = "schemathesis.transport.requests:"
+R.contract("schemathesis.transport.serialization:serialize_binary", args={"value": Opq("Any")}, returns=lambda it, env: ("as-bytes", env["value"]), trusted=True,
+           note="bytes as they are, Binary -> its data, anything else -> str(value).encode(errors='ignore')")
+_FormDatum = lambda: OneOf(Str, Int, Const(b"raw-bytes"), Const(1.5), NoneT, Const({"nested": "object"}))
+R.contract(
+    TRQ + "_prepare_form_data",
+    variant="coercion",
+    prop="C06",
+    args={"data": DictOf(optional={"a": _FormDatum(), "b": ListOf(_FormDatum(), [0, 1, 2], widen=False)})},
+    raises=[],
+    ensures={
+        # the generated field values reach the form unchanged when a form can carry them (text, integers, bytes); only what cannot be sent (floats, null, objects) is coerced
+        "sendable_values_are_kept_as_they_are": "implies('a' in old(dict(data)) and form_can_carry(old(dict(data))['a']), same_datum(result['a'], old(dict(data))['a'])) and "
+                                                "implies('b' in old(dict(data)), length(result['b']) == length(old(deep(data))['b']) and "
+                                                "all(implies(form_can_carry(old(deep(data))['b'][i]), same_datum(result['b'][i], old(deep(data))['b'][i])) for i in range(length(result['b']))))",
+        "everything_else_is_coerced_to_bytes": "implies('a' in old(dict(data)) and not form_can_carry(old(dict(data))['a']), result['a'] == ('as-bytes', old(dict(data))['a'])) and "
+                                               "implies('b' in old(dict(data)), all(implies(not form_can_carry(old(deep(data))['b'][i]), result['b'][i] == ('as-bytes', old(deep(data))['b'][i])) for i in range(length(result['b']))))",
+        "no_field_added_or_dropped": "sorted(result) == sorted(old(dict(data)))",
+    },
+    bounded_note="one scalar field and one list field of up to 2 items; text, integer, bytes, float, null and object values",
+    replayable=False,
+)
+
+
+def _form_can_carry(it, v):
+    from pyvc.values import SStr, SInt
+
+    return isinstance(v, (SStr, SInt, str, bytes)) or (isinstance(v, int) and not isinstance(v, bool)) or isinstance(v, bool)
+
+
+def _same_datum(it, a, b):
+    from pyvc.values import Sym
+    from pyvc import ops
+    from pyvc.builtins_ import type_name
+
+    if isinstance(a, Sym) or isinstance(b, Sym):
+        return type_name(a) == type_name(b) and ops.eq(a, b)
+    return type(a) is type(b) and a == b
+
+
+R.spec_funcs["form_can_carry"] = _form_can_carry
+R.spec_funcs["same_datum"] = _same_datum
+
 LEVEL_TEXT = ("Deductive: each style encoder against the wire form of the OpenAPI serialization table, serialize_case's query/cookie/method/url pass-through; "
               "arrays/objects explored up to a small size (labelled bounded). URL composition and the requests library are trusted. Level other.")
 LEVEL_NOTE = "Trusted: requests (E4), str.join/split inversion and urllib (E5), pyvc semantics (E9)."
